@@ -1,6 +1,7 @@
 (* C09 — Every committed local change gets published. Property theorems only. *)
 From Coq Require Import List NArith Lia. Import ListNotations.
-From LS Require Import Instance.Ids Instance.IdsProofs.
+From LS Require Import Base.Bytes Base.Res Merge.Model Strategy.Model Shadow.Model Instance.Model Instance.SyncLoop
+  Instance.LoopQuiet Instance.LoopPublish Instance.Ids Instance.IdsProofs.
 Open Scope N_scope.
 
 (* whenever the loop is idle (at the top with nothing to send), every application commit of this run is
@@ -35,3 +36,40 @@ Proof.
     + apply nw_other; [eapply s_store_ok; reflexivity|reflexivity].
   - cbn. repeat split; reflexivity.
 Qed.
+
+(* ---- on the EXECUTABLE loop machine (the one replayed against the real syncLoop) ----
+   a pending local change (lastSynced < LastTxnID), nothing else happening, storage healthy, not receive-only:
+   ONE pass uploads a snapshot whose content is exactly what SendOnce's transaction dumped from the environment
+   holding that change, records it as synced, tells the cleaner what had been merged, and leaves the instance
+   idle; whatever number of further passes follow, the uploads stay exactly these (published once, no echo) *)
+Theorem C09_quiet_pass_publishes_executable : forall fuel c has_data s s' alive,
+  still s -> i_receive_only c = false -> (0 < fuel)%nat ->
+  l_synced s < e_last (l_env s) ->
+  (forall now, exists r, send_txn c (l_env s) now 0 = Ok r) ->
+  loop_iter fuel c has_data s = (s', alive) ->
+  exists now e' T ds,
+    send_txn c (l_env s) now 0 = Ok (e', T, ds) /\
+    l_stores s' = (now, e_last e', ds) :: l_stores s /\
+    l_env s' = e' /\ l_synced s' = e_last e' /\ l_committed s' = l_last_by s /\ still s'.
+Proof. exact loop_iter_publishes. Qed.
+Print Assumptions C09_quiet_pass_publishes_executable.
+Theorem C09_published_exactly_once_executable : forall fuel fuel' c has_data s s',
+  still s -> i_receive_only c = false -> (0 < fuel)%nat ->
+  l_synced s < e_last (l_env s) ->
+  (forall now, exists r, send_txn c (l_env s) now 0 = Ok r) ->
+  loop_iter fuel c has_data s = (s', true) ->
+  exists now e' T ds,
+    send_txn c (l_env s) now 0 = Ok (e', T, ds) /\
+    l_stores (outer_loop fuel' c has_data s') = (now, e_last e', ds) :: l_stores s.
+Proof. exact publishes_exactly_once. Qed.
+Print Assumptions C09_published_exactly_once_executable.
+
+(* non-vacuity: native instance, one application commit pending (LastTxnID 3, lastSynced 2): the pass uploads
+   the DBI's content and ends idle *)
+Example C09_publish_example :
+  let e := mkEnv [([97], mkDbi 0 [([107], be64 9 ++ be64 3 ++ [0;0;0;0;0;0;0;0] ++ [118])])] 3 in
+  let s := mkL e [[]; []; []; []; []; []; []; []] 0 1000 [] 0 false 2 [] [] [] [] in
+  exists s', loop_iter 5 (mkICfg true true false false false []) true s = (s', true) /\
+             l_synced s' = 3 /\
+             map (fun x => snd x) (l_stores s') = [[mkSDbi [97] 0 [] [mkKV [107] [118] 9 0]]].
+Proof. eexists. split; [vm_compute; reflexivity|]. split; vm_compute; reflexivity. Qed.
